@@ -516,7 +516,7 @@ func NewAudioPackager() (AudioPackager, error) {
 
 func (v *audioPackager) Encode(frame *AudioFrame) (tag []byte, err error) {
 	audioTagHeader := []byte{
-		byte(frame.SoundFormat)<<4 | byte(frame.SoundRate)<<2 | byte(frame.SoundSize)<<1 | byte(frame.SoundType),
+		byte(frame.SoundFormat)<<4 | byte(frame.SoundRate&0x03)<<2 | byte(frame.SoundSize&0x01)<<1 | byte(frame.SoundType&0x01),
 	}
 
 	// For Opus, we put the sampling rate after trait,
